@@ -230,7 +230,10 @@ pub fn oracle_true_digests(sub: &str, x: &[u8], rank: u64, case: &dyn Fn() -> Va
                             Ent::Newc(c) => &c.data,
                             Ent::Stripped { data, .. } => data,
                         };
-                        if modes[i] & 0o170000 == 0o100000 && digests[i] != sha256_hex(data).as_bytes() {
+                        let ty = modes[i] & 0o170000;
+                        // regular files always; entries of no known type when they carry content or a digest
+                        let judged = ty == 0o100000 || (ty != 0o040000 && ty != 0o120000 && (!data.is_empty() || !digests[i].is_empty()));
+                        if judged && digests[i] != sha256_hex(data).as_bytes() {
                             bad("file-digest", format!("digest of file {} ({}) is not the SHA-256 of its archived content", i, String::from_utf8_lossy(&names[i])));
                         }
                     }
